@@ -10,9 +10,9 @@ Objects:
 
 Theorems (all for EVERY argument record `a : Args`, unbounded integer fields — in particular for
 records that violate several preconditions at once, which is where the ORDER of the tests shows):
-  * `argchain_<routine>_spec`     chain = spec, four precisions            (gssv gssvx gstrs gsrfs gscon gsequ)
-  * `argchain_<routine>_partial`  chain = spec under `<routine>_agrees`    (gsisx sp_trsv sp_gemv — the
-                                   chain of the unchanged tree deviates from the header, see below)
+  * `argchain_<routine>_spec`     chain = spec, four precisions            (gssv gssvx gstrs gsrfs gscon gsequ sp_gemv)
+  * `argchain_<routine>_partial`  chain = spec under `<routine>_agrees`    (gsisx sp_trsv — the chain of the
+                                   unchanged tree REJECTS some calls the header allows, see below)
   * `argchain_types_agree`        the s/d/c/z chains are one chain up to the Dtype tag (all nine routines)
   * `argchain_errparam`           the number handed to input_error is -info (the position)
   * `argchain_prelude_pure`       nothing the caller owns is written and nothing but a machine-constant
@@ -30,10 +30,10 @@ Deviations of the unchanged tree from the documentation (kept OUT of the spec, s
    used, i.e. it rejects calls the header allows.  `[sdcz]gssvx` (since the fix: commits 533c341,
    cb8543f) satisfies the full statement (`argchain_gssvx_spec`). -/
 /- argchain_sp_trsv_goal : ∀ a, check_sp_[sdcz]trsv a = specInfo_sp_trsv dt a
-   FALSE today: the header documents 'u','l','n','t','c' but only upper case is accepted, and the
-   documented type tags of L and U are not tested. -/
-/- argchain_sp_gemv_goal : ∀ a, errparam_sp_[sdcz]gemv a = -specInfo_sp_gemv dt a
-   FALSE today: the documented type tags of A (Stype NC or NCP, Dtype, Mtype GE) are not tested. -/
+   FALSE today, in the direction C18 does not speak about: the header documents 'u','l','n','t','c' but
+   only upper case is accepted (legal calls rejected).  The documented type tags of L and U ARE tested
+   since the /repo commit "fix: sp_[sdcz]trsv, sp_[sdcz]gemv: test the documented Stype/Dtype/Mtype". -/
+/- sp_gemv: the full statement holds since that commit (`argchain_sp_gemv_spec`). -/
 -/
 namespace Slu.ArgSpec
 open Slu.ArgChains
@@ -104,13 +104,13 @@ theorem argchain_sp_trsv_partial (a : Args) :
   refine ⟨?_, ?_, ?_, ?_⟩ <;> intro h <;> argchain_gen_unfold <;> argchain_unfold <;> argchain_cascade
 
 /-- sp_gemv has no info argument: the position is what it hands to input_error -/
-theorem argchain_sp_gemv_partial (a : Args) :
-    (sp_gemv_agrees SLU_S a → errparam_sp_sgemv a = -specInfo_sp_gemv SLU_S a) ∧
-    (sp_gemv_agrees SLU_D a → errparam_sp_dgemv a = -specInfo_sp_gemv SLU_D a) ∧
-    (sp_gemv_agrees SLU_C a → errparam_sp_cgemv a = -specInfo_sp_gemv SLU_C a) ∧
-    (sp_gemv_agrees SLU_Z a → errparam_sp_zgemv a = -specInfo_sp_gemv SLU_Z a) := by
+theorem argchain_sp_gemv_spec (a : Args) :
+    errparam_sp_sgemv a = -specInfo_sp_gemv SLU_S a ∧
+    errparam_sp_dgemv a = -specInfo_sp_gemv SLU_D a ∧
+    errparam_sp_cgemv a = -specInfo_sp_gemv SLU_C a ∧
+    errparam_sp_zgemv a = -specInfo_sp_gemv SLU_Z a := by
   simp only [specInfo_sp_gemv, spec_sp_gemv]
-  refine ⟨?_, ?_, ?_, ?_⟩ <;> intro h <;> argchain_gen_unfold <;> argchain_unfold <;>
+  refine ⟨?_, ?_, ?_, ?_⟩ <;> argchain_gen_unfold <;> argchain_unfold <;>
     simp only [apply_ite (Neg.neg : Int → Int), Int.neg_neg, Int.neg_zero] <;> argchain_cascade
 
 /-- the four precisions of a routine have ONE chain: shifting every Dtype tag by k maps the chain of
@@ -269,7 +269,6 @@ theorem argchain_translated : translationFailures = [] := by decide
 example : gsisx_agrees SLU_D { A_nrow := 3, A_ncol := 3, A_Dtype := 1, B_ncol := 2, X_ncol := 2, B_Store_lda := 3, X_Store_lda := 3, B_Stype := 6, X_Stype := 6, B_Dtype := 1, X_Dtype := 1 } := by decide
 example : gsisx_agrees SLU_D { A_nrow := 3, A_ncol := 3, A_Dtype := 1, B_ncol := 0, X_ncol := 0, B_Store_lda := 3, X_Store_lda := 3, B_Stype := 6, X_Stype := 6, B_Dtype := 1, X_Dtype := 1 } := by decide
 example : sp_trsv_agrees SLU_D { L_Stype := 3, L_Dtype := 1, L_Mtype := 1, U_Stype := 0, U_Dtype := 1, U_Mtype := 4, uplo_ch := 76, trans_ch := 78, diag_ch := 85 } := by decide
-example : sp_gemv_agrees SLU_D { A_Dtype := 1 } := by decide
 example : specInfo_gstrs SLU_D { L_nrow := 3, L_ncol := 3, L_Stype := 3, L_Dtype := 1, L_Mtype := 1, U_nrow := 3, U_ncol := 3, U_Dtype := 1, U_Mtype := 4, B_Store_lda := 3, B_Stype := 6, B_Dtype := 1 } = 0 := by decide
 example : specInfo_gstrs SLU_D { trans := 7, L_nrow := -1 } = -1 := by decide
 example : specInfo_gstrs SLU_D { L_nrow := 3, L_ncol := 3, L_Stype := 3, L_Dtype := 1, L_Mtype := 1, U_nrow := 3, U_ncol := 3, U_Dtype := 1, U_Mtype := 4, B_Store_lda := 2, B_Stype := 6, B_Dtype := 1 } = -6 := by decide
